@@ -215,7 +215,8 @@ def arrive(ctx):
     for f, top in class_functions(fb, CLS):
         if top.kind in ("ctor", "dtor") or f.is_lambda:
             continue
-        decs = [s for s, op in field_writes(ctx, f, "count_") if op != "="]
+        # (an INCREMENT of count_ - an arrival taken back by a timed wait, participants added - completes nothing)
+        decs = [s for s, op in field_writes(ctx, f, "count_") if op != "=" and s.get("op") not in ("++", "+=")]
         for d in decs:
             ndec += 1
             pos = f.pos_of(d)
